@@ -1,4 +1,5 @@
 SPECIFICATION Spec
 INVARIANT Emit
 INVARIANT Theorem
+INVARIANT ExtensionLemma
 CHECK_DEADLOCK FALSE
